@@ -19,6 +19,13 @@ func FormatExp(exp Exp, prefix string) string {
 }
 
 func (e *ArrayExp) format(w stringWriter, prefix string) {
+	e.formatNested(w, prefix, false)
+}
+
+// formatNested formats the array.  If singleLine is true, the caller has
+// already established that e.singleLineFormat() is true, which would
+// otherwise be evaluated again at every level of a nested array.
+func (e *ArrayExp) formatNested(w stringWriter, prefix string, singleLine bool) {
 	if e.Value == nil {
 		mustWriteString(w, KindNull)
 		return
@@ -29,11 +36,15 @@ func (e *ArrayExp) format(w stringWriter, prefix string) {
 		return
 	}
 	p, isMro := w.(*printer)
-	if e.singleLineFormat() && (!isMro ||
+	if (singleLine || e.singleLineFormat()) && (!isMro ||
 		values[0].getNode() != nil && len(values[0].getNode().Comments) == 0) {
 		// Place single-element arrays on a single line.
 		mustWriteRune(w, '[')
-		values[0].format(w, prefix)
+		if inner, ok := values[0].(*ArrayExp); ok {
+			inner.formatNested(w, prefix, true)
+		} else {
+			values[0].format(w, prefix)
+		}
 		mustWriteRune(w, ']')
 	} else {
 		mustWriteString(w, "[\n")
